@@ -38,6 +38,7 @@ type w1Contribution struct {
 type w1Payload struct {
 	raw       string
 	hasMarker bool
+	onWire    bool // registered as the payload of its (agent, second)
 	items     map[string]*w1Contribution
 	decodeErr string
 }
@@ -49,7 +50,7 @@ type w1Fail struct {
 type w1RepGen struct{ rep, gen int }
 
 type w1Oracle struct {
-	marker    map[w1AT]int // workload applied the marker of (a,T) to this agent generation
+	marker    map[w1AT]int          // workload applied the marker of (a,T) to this agent generation
 	uniq      map[w1UniqKey][]int64 // values the workload sent for a unique-kind key, per reporting agent
 	wire      map[w1AT]*w1Payload   // the payload carrying the workload rows of (a,T), once seen on the wire
 	payloads  map[string]*w1Payload // by content
@@ -138,36 +139,39 @@ func w1KeyString(time uint32, metric int32, tags []int32, stags [][]byte) string
 	return sb.String()
 }
 
-// noteWireLocked decodes the payload the transport carries (generated TL types), once per distinct
+// noteWireLocked: the payload crosses the wire (first time: it becomes THE payload of its second).
+func (w *w1World) noteWireLocked(inst *w1Inst, T uint32, p *w1Payload) {
+	if p.onWire || !p.hasMarker {
+		return
+	}
+	p.onWire = true
+	at := w1AT{inst.agent, T}
+	if w.or.wire[at] != nil {
+		w.probeLocked("two_marker_payloads_for_one_second")
+	}
+	w.or.wire[at] = p
+}
+
+// payloadLocked decodes the payload a request carries (generated TL types), once per distinct
 // content. A second of an agent can have two payloads: the one a killed process produced (with the
 // workload's rows) and an empty one its successor produces for the same second.
-func (w *w1World) noteWireLocked(inst *w1Inst, call *w1Call, args *tlstatshouse.SendSourceBucket3Bytes) {
+func (w *w1World) payloadLocked(inst *w1Inst, args *tlstatshouse.SendSourceBucket3Bytes) *w1Payload {
 	at := w1AT{inst.agent, args.Time}
 	ck := fmt.Sprintf("%d/%d/", at.a, at.T) + string(args.CompressedData)
 	if p := w.or.payloads[ck]; p != nil {
-		call.payload = p
-		return
+		return p
 	}
 	p := &w1Payload{raw: string(args.CompressedData), items: map[string]*w1Contribution{}}
 	w.or.payloads[ck] = p
-	call.payload = p
-	defer func() {
-		if p.hasMarker {
-			if w.or.wire[at] != nil {
-				w.probeLocked("two_marker_payloads_for_one_second")
-			}
-			w.or.wire[at] = p
-		}
-	}()
 	raw, err := compress.Decompress(args.OriginalSize, args.CompressedData)
 	if err != nil {
 		p.decodeErr = "decompress: " + err.Error()
-		return
+		return p
 	}
 	var b tlstatshouse.SourceBucket3Bytes
 	if _, err := b.ReadTL1Boxed(raw); err != nil {
 		p.decodeErr = "tl: " + err.Error()
-		return
+		return p
 	}
 	sender := string(args.Header.HostName)
 	for i := range b.Metrics {
@@ -181,7 +185,7 @@ func (w *w1World) noteWireLocked(inst *w1Inst, call *w1Call, args *tlstatshouse.
 		}
 		if len(item.Top) != 0 {
 			p.decodeErr = "workload item with string top"
-			return
+			return p
 		}
 		key := w1KeyString(ts, item.Metric, item.Keys, item.Skeys)
 		v := &item.Tail
@@ -212,13 +216,14 @@ func (w *w1World) noteWireLocked(inst *w1Inst, call *w1Call, args *tlstatshouse.
 		}
 		if p.items[key] != nil {
 			p.decodeErr = "key twice in one agent bucket: " + key
-			return
+			return p
 		}
 		p.items[key] = c
 		if item.Metric == w1MetricMarker {
 			p.hasMarker = true
 		}
 	}
+	return p
 }
 
 // ---- per-record processing --------------------------------------------------------------------------
@@ -238,7 +243,7 @@ func (w *w1World) format(rec *w1Rec) string {
 	case w1RecNetDrop:
 		return fmt.Sprintf("%s agent%d.g%d r%d %s T=%d try=%d lost=%s", head, rec.agent, rec.agentGen, rec.replica+1, w1KindNames[rec.kind], rec.T, rec.attempt, rec.note)
 	case w1RecDeliver:
-		return fmt.Sprintf("%s %s dup=%v damaged=%v accepted=%v filed=%s bucket=%d window=[%d,%d]", head, peer, rec.dup, rec.corrupt, rec.accepted, rec.where, rec.bucketTime, rec.oldest, rec.newest)
+		return fmt.Sprintf("%s %s dup=%v damaged=%v marker=%v accepted=%v filed=%s bucket=%d window=[%d,%d]", head, peer, rec.dup, rec.corrupt, rec.hasMarker, rec.accepted, rec.where, rec.bucketTime, rec.oldest, rec.newest)
 	case w1RecResp:
 		return fmt.Sprintf("%s %s dup=%v damaged=%v result=%s discard=%v warning=%s", head, peer, rec.dup, rec.corrupt, rec.note, rec.discard, rec.warn)
 	case w1RecAck:
